@@ -80,7 +80,8 @@ type callPlan struct {
 }
 
 type e2eEnv struct {
-	garbageExpected bool // requests with damaged headers are part of the workload
+	otherEndpoint   func() // C12/http: a few calls through a second transport built later from the same builder
+	garbageExpected bool   // requests with damaged headers are part of the workload
 	rc              *RunCtx
 	s               *simrt.Sim
 	kind            string // adapter | http | nats
@@ -258,6 +259,29 @@ func (env *e2eEnv) start(procMW []frugal.ServiceMiddleware, provMW []frugal.Serv
 			bld = bld.WithResponseSizeLimit(env.httpRespLimit)
 		}
 		env.tr = bld.Build()
+		// the application goes on to configure the same builder for another endpoint with other limits: a
+		// transport that has been built keeps the limits it was built with
+		other := bld.WithRequestSizeLimit(1 << 20).WithResponseSizeLimit(0).Build()
+		if env.rc.Prop == "C12" {
+			// ... and uses that other transport now and then: a second client with other limits in the same process
+			other.Open()
+			oc := simsvc.NewFLeafClient(frugal.NewFServiceProvider(other, env.pf))
+			n := 0
+			env.otherEndpoint = func() {
+				for i := 0; i < 2; i++ {
+					n++
+					p := &callPlan{id: 9000 + n, tag: fmt.Sprintf("other-endpoint-%d", n), method: "add", args: []any{int32(n), int32(1)}, outcome: "ok", ret: int32(n + 1), reqHdr: map[string]string{}, respHdr: map[string]string{}}
+					env.plans[p.tag] = p
+					ctx := frugal.NewFContext("other")
+					ctx.AddRequestHeader("tag", p.tag)
+					ctx.AddRequestHeader("pad", strings.Repeat("p", 3000))
+					if r, err := oc.Add(ctx, int32(n), 1); err != nil || r != int32(n+1) {
+						env.rc.Violate("C12", "in-limit-message-rejected", "http other endpoint", fmt.Sprintf("add(%d,1) with a 3000-byte header through a second transport (request limit 1 MiB, no response limit): %v %v", n, r, err))
+					}
+				}
+			}
+			env.rc.Fault("second-client-with-other-limits-in-the-process")
+		}
 	case "nats":
 		env.b = NewSimBroker(env.rc)
 		env.b.OnPublish = func(c *BrokerConn, subject, reply string, hdr, data []byte) bool {
